@@ -74,7 +74,9 @@ pub fn analyse_variant_groups<IntT: for<'a> UInt<'a>>(
             })
         })
         .collect();
-    sorted_keys.sort_by(|a, b| b.1.partial_cmp(&a.1).unwrap()); // Sort by ratio, descending
+    // Sort by ratio, descending; ties broken by the extremities so that the order (and hence which
+    // group first claims a SNP) does not depend on the hash map's iteration order
+    sorted_keys.sort_by(|a, b| b.1.partial_cmp(&a.1).unwrap().then_with(|| a.0.cmp(b.0)));
 
     log::info!("Processing SNPs");
 
